@@ -46,9 +46,20 @@ lsearchk_t::result_t lsearchk_t::get(solver_state_t& state, const vector_t& desc
         return {false, step_size};
     }
 
-    // adjust the initial step size if it produces an invalid state
+    // NB: a failed line-search leaves the state at the starting point (not at the last rejected trial)!
     const auto state0 = state;
+    const auto result = get(state0, state, descent, step_size, max_iterations, logger);
+    if (!std::get<0>(result))
+    {
+        state = state0;
+    }
+    return result;
+}
 
+lsearchk_t::result_t lsearchk_t::get(const solver_state_t& state0, solver_state_t& state, const vector_t& descent,
+                                     scalar_t step_size, const int max_iterations, const logger_t& logger) const
+{
+    // adjust the initial step size if it produces an invalid state
     step_size = std::isfinite(step_size) ? std::clamp(step_size, stpmin(), 1.0) : scalar_t(1);
     for (int i = 0; i < max_iterations && !update(state, state0, descent, step_size, logger); ++i)
     {
